@@ -100,6 +100,13 @@ def enumerate_cases(tier, shard=0, nshards=1):
         for sp in ('native', 'text', 'Text', 'bool', 'None', 'lower',
                    'sci'):
             out.append({'k': 'register', 'n': n, 'spelling': sp})
+        # user functions of OTHER declared types made by the same factory
+        # (same module, same qualified name, same parameter names)
+        for ty, sps in (('text', ('number', 'text', 'float')),
+                        ('bool', ('zero', 'one', 'TRUE', 'text'))):
+            for sp in sps:
+                out.append({'k': 'register', 'n': n, 'spelling': sp,
+                            'ty': ty})
     for i, c in enumerate(out):
         if i % nshards == shard:
             yield c
@@ -433,7 +440,55 @@ def _arith(case, res):
     return res
 
 
+def _register_typed(case, res):
+    xl = lib.lib()
+    n, sp, ty = case['n'], case['spelling'], case['ty']
+    xlmod = importlib.import_module('xlcalculator.xlfunctions.xl')
+    name = '%sFN%d_VF' % (ty.upper(), n)
+    res.nontrivial = True
+    if ty == 'text':
+        def impl(num: xl.XlText) -> xl.XlText:
+            return str(num) + 'x' * (n + 1)
+        lit_, want = {'number': ('12', ('T', '12' + 'x' * (n + 1))),
+                      'text': ('"ab"', ('T', 'ab' + 'x' * (n + 1))),
+                      'float': ('2.5', ('T', '2.5' + 'x' * (n + 1)))}[sp]
+    else:
+        def impl(num: xl.XlBoolean) -> xl.XlBoolean:
+            return not num
+        lit_, want = {'zero': ('0', ('B', True)), 'one': ('1', ('B', False)),
+                      'TRUE': ('TRUE', ('B', False)),
+                      'text': ('"xyzzy"', ('E', '#VALUE!'))}[sp]
+    impl.__name__ = name
+    try:
+        try:
+            xl.register()(xlmod.validate_args(impl))
+        except Exception as err:  # noqa: BLE001
+            t = exc_tag(err)
+            res.fail('registration-exception:%s' % t[1],
+                     'function registered', t, name)
+            return res
+        f = '=%s(%s)' % (name, lit_)
+        o = lib.eval_formula(f)[0]
+        if o != want:
+            res.fail('registered:%s-typed:%s' % (ty, sp), want, o, f)
+        # through a cell as well
+        f2 = '=%s(A1)' % name
+        cell = {'12': 12, '"ab"': 'ab', '2.5': 2.5, '0': 0, '1': 1,
+                '"xyzzy"': 'xyzzy'}.get(lit_)
+        if cell is not None:
+            o2 = lib.eval_formula(f2, {'Sheet1!A1': cell},
+                                  addr='Sheet1!Z1')[0]
+            if o2 != want:
+                res.fail('registered:%s-typed:%s:cell' % (ty, sp), want, o2,
+                         [f2, cell])
+    finally:
+        xl.FUNCTIONS.pop(name, None)
+    return res
+
+
 def _register(case, res):
+    if case.get('ty'):
+        return _register_typed(case, res)
     xl = lib.lib()
     n, sp = case['n'], case['spelling']
     xlmod = importlib.import_module('xlcalculator.xlfunctions.xl')
